@@ -7,8 +7,11 @@ package main
 
 import (
 	"bytes"
+	"crypto/sha256"
 	"fmt"
+	"github.com/WICG/webpackage/go/zz_verif/rsxg"
 	"log"
+	"math"
 	"net/http"
 	"net/url"
 	"sort"
@@ -251,6 +254,78 @@ func shortDesc(d string) string {
 	return d
 }
 
+// extremeTimes: date / expires values at the edges of the 64-bit range. The library's signer cannot express them, so an
+// honest exchange is built by the library and its signature is replaced by one made by the reference over the same
+// content with the extreme timestamps. The lifetime check must hold in exact arithmetic (expires - date <= 604800 as
+// integers), not in arithmetic that wraps.
+func extremeTimes(r *mon.Run, id *gen.Identity) {
+	const now = int64(1600000000)
+	type tc struct {
+		name          string
+		date, expires int64
+		at            int64
+		accept        bool
+		why           string
+	}
+	minI, maxI := int64(math.MinInt64), int64(math.MaxInt64)
+	cases := []tc{
+		{"control-1h", now - 10, now + 3590, now, true, ""},
+		{"control-7d", now - 10, now - 10 + 604800, now, true, ""},
+		{"control-7d+1", now - 10, now - 10 + 604801, now, false, "lifetime above 7 days"},
+		{"date=min,expires=now+10", minI, now + 10, now, false, "lifetime above 7 days"},
+		{"date=min+1,expires=now+10", minI + 1, now + 10, now, false, "lifetime above 7 days"},
+		{"date=-2^62,expires=2^62", -(1 << 62), 1 << 62, now, false, "lifetime above 7 days"},
+		{"date=now-10,expires=max", now - 10, maxI, now, false, "lifetime above 7 days"},
+		{"date=0,expires=max", 0, maxI, now, false, "lifetime above 7 days"},
+		{"date=min,expires=max", minI, maxI, now, false, "lifetime above 7 days"},
+		{"date=-2^33,expires=now+10", -(1 << 33), now + 10, now, false, "lifetime above 7 days"},
+		{"date=2^62,expires=2^62+3600,at=2^62+5", 1 << 62, 1<<62 + 3600, 1<<62 + 5, true, ""},
+		{"date=now+5,expires=now-5", now + 5, now - 5, now, false, "expires before date"},
+	}
+	for _, ver := range gen.SXGVersions {
+		for _, c := range cases {
+			g := r.Rand("extreme", 0)
+			spec := gen.DefaultSXG(g, ver, id, "example.com", 30, 16)
+			spec.Date, spec.Expires = time.Unix(now-10, 0), time.Unix(now+3590, 0)
+			e, _, err := spec.Build()
+			if err != nil {
+				r.HarnessFail("extremeTimes: cannot build the base exchange: %v", err)
+				return
+			}
+			ref := &rsxg.Exchange{Version: string(ver), URL: e.RequestURI, Method: e.RequestMethod, ReqHeaders: rsxg.Norm(e.RequestHeaders), Status: e.ResponseStatus, RespHeaders: rsxg.Norm(e.ResponseHeaders), Payload: e.Payload}
+			certSha := sha256.Sum256(id.Certs[0].Raw)
+			msg := rsxg.SignedMessage(ref, certSha[:], spec.ValidityURL, c.date, c.expires)
+			sig, serr := rsxg.Sign(g, id.Key, msg)
+			if serr != nil {
+				r.HarnessFail("extremeTimes: reference signer: %v", serr)
+				return
+			}
+			e.SignatureHeaderValue = rsxg.SignatureHeader("label", sig, certSha[:], id.CertURL, spec.ValidityURL, rsxg.Integrity(string(ver)), c.date, c.expires)
+			var ok bool
+			var lb bytes.Buffer
+			p, pv := r.Call("extreme/"+c.name, nil, func() { _, ok = e.Verify(time.Unix(c.at, 0), id.Fetcher(), log.New(&lb, "", 0)) })
+			key := fmt.Sprintf("pol:%s:extreme:%s", ver, c.name)
+			det := map[string]any{"version": string(ver), "date": c.date, "expires": c.expires, "verification_time": c.at, "expected_accept": c.accept, "logger": strings.TrimSpace(lb.String())}
+			outcome := "reject-agree"
+			switch {
+			case p:
+				outcome = "PANIC"
+				r.Violation(key+":panic", fmt.Sprintf("Verify panicked (%s, %s): %v", ver, c.name, pv), det)
+			case ok && !c.accept:
+				outcome = "OVER-ACCEPTED"
+				r.Violation(key+":accept", fmt.Sprintf("Verify accepted a %s exchange with date=%d expires=%d at t=%d (%s)", ver, c.date, c.expires, c.at, c.why), det)
+			case !ok && c.accept:
+				outcome = "OVER-REJECTED"
+				r.Violation(key+":reject", fmt.Sprintf("Verify rejected a %s exchange with date=%d expires=%d at t=%d, which satisfies every acceptance condition: %s", ver, c.date, c.expires, c.at, strings.TrimSpace(lb.String())), det)
+			case ok:
+				outcome = "accept-agree"
+			}
+			r.Eval("extreme-times:" + outcome)
+			r.Distinct(fmt.Sprintf("extreme|%s|%s|%s", ver, c.name, outcome))
+		}
+	}
+}
+
 // transitions lists the instants in [from, to) at which the UTC offset of loc changes.
 func transitions(loc *time.Location, from, to int64) []int64 {
 	var out []int64
@@ -272,6 +347,9 @@ func run(r *mon.Run) {
 	r.Assume("predicate from draft-yasskin-http-origin-signed-responses section 3.5/4 and RFC 7234 section 3; origin comparison is literal scheme + host[:port]; left out as debatable: default port vs none, host letter case, quoted-string Cache-Control arguments, empty Content-Type value, status codes whose registration depends on the Go release (only codes stable since Go 1.12 are used)")
 	g0 := r.Rand("ids", 0)
 	id := gen.NewIdentity(g0, gen.Curves[0], "example.com", 1)
+	if r.Shard == 0 {
+		extremeTimes(r, id)
+	}
 	idx := 0
 	mine := func() bool { idx++; return r.Mine(idx) }
 	full := r.Thorough
@@ -482,7 +560,7 @@ func run(r *mon.Run) {
 	// H. seeded random combinations of all factors
 	nRand := 3000
 	if r.Thorough {
-		nRand = 60000
+		nRand = 1500000
 	}
 	for i := 0; i < nRand; i++ {
 		if !r.Mine(i) {
